@@ -253,21 +253,31 @@ def run(ctx):
                           if a2["write"] and a2["loc"] in locs})
         if a["write"] and ename not in writers:
             writers.append(ename)
+        # a write conflicts with the READERS of the location too (they may hold the lock in read mode only): a first, small
+        # round runs the entry against itself, a few readers and - for crdIpam - the allocation that keeps the key the canned
+        # arguments name supplied with IPs (the other writers would take them away again); the second round uses every writer
+        readers = sorted({e2["name"] for e2 in data["coq_entries"] for a2 in e2["accesses"] if not a2["write"] and a2["loc"] in locs})
+        small = ([ename] if a["write"] else []) + [r_ for r_ in readers if r_ != ename][:3] + \
+            (["crdIpam.AllocateInSubnet"] if ename.startswith("crdIpam.") else [])
+        rounds = ([small] if a["write"] and small != writers else []) + [writers]
         replay = {"access_pair": {"undisciplined": [{"entry": x[0]["name"], "access": x[1]} for x in items],
                                   "partner": partner}, "how": "bin/check C19 --replay <this file>"}
         found = False
         if binary is None:
             binary = race_build(ctx) or ""
-        if binary:
-            case, reports, res = run_detector(binary, ename, writers, 150 if ctx.quick else 1000)
+        for partners in (rounds if binary else []):
+            case, reports, res = run_detector(binary, ename, partners, 150 if ctx.quick else 1000)
             replay["ghrace_case"] = case
             if reports:
                 hits = [r for r in reports if any(report_matches(r, x[1]) for x in items)]
                 replay["race_detector_reports"] = (hits or reports)[:3]
                 replay["race_detector_report_count"] = len(reports)
                 found = bool(hits)
+                replay.pop("race_detector", None)
             else:
                 replay["race_detector"] = "silent (%s)" % res
+            if found:
+                break
         tags = []
         if a["loc"].startswith("Galaxy.netConf[][]") and a["write"] and "cniutil.CmdAdd" in via:
             tags.append("c19-netconf-prevresult")
